@@ -61,14 +61,24 @@ class Buffer:
 
 
 class View:
-    __slots__ = ("buf", "off", "strides", "shape", "is_win")
+    """A tensor or window: element (i0..ik) lives at buf.data[off + sum(i*stride)].
+    rshape/rmap remember the declared extent of the underlying (root) buffer so that an
+    access through a window that leaves a dimension of the root is detected even when the
+    flat position still falls inside the backing store: rmap[d] = ("pt", v) | ("dim", k, lo)."""
 
-    def __init__(self, buf, off, strides, shape, is_win=False):
+    __slots__ = ("buf", "off", "strides", "shape", "is_win", "rshape", "rmap")
+
+    def __init__(self, buf, off, strides, shape, is_win=False, rshape=None, rmap=None):
         self.buf = buf
         self.off = off
         self.strides = tuple(strides)
         self.shape = tuple(shape)
         self.is_win = is_win
+        if rmap is None:
+            rshape = self.shape
+            rmap = tuple(("dim", k, 0) for k in range(len(self.shape)))
+        self.rshape = tuple(rshape)
+        self.rmap = tuple(rmap)
 
     @staticmethod
     def dense(buf, shape, is_win=False):
@@ -84,6 +94,12 @@ class View:
         for i, s in zip(idx, self.strides):
             o += i * s
         return o
+
+    def root_index(self, idx):
+        return tuple(m[1] if m[0] == "pt" else idx[m[1]] + m[2] for m in self.rmap)
+
+    def retag(self, is_win):
+        return View(self.buf, self.off, self.strides, self.shape, is_win, self.rshape, self.rmap)
 
     def elements(self):
         """all flat positions addressed by this view (for aliasing / overlap)"""
@@ -238,7 +254,7 @@ def _is_ctrl(t):
 
 
 class Interp:
-    def __init__(self, domain=None, config=None, listener=None, max_steps=200000, par_order=None, check_windows=True):
+    def __init__(self, domain=None, config=None, listener=None, max_steps=200000, par_order=None, check_windows=False):
         self.dom = domain or ExactDomain()
         self.config = dict(config or {})  # (cfgname, field) -> value
         self.listener = listener
@@ -302,6 +318,10 @@ class Interp:
             if not (0 <= i < d):
                 cls = "window-extent" if v.is_win else "buffer-oob"
                 raise Unsafe(cls, f"{kind} {name}{ii} outside extent {v.shape} at {s.srcinfo}")
+        ri = v.root_index(ii)
+        for r, d in zip(ri, v.rshape):
+            if not (0 <= r < d):
+                raise Unsafe("buffer-oob", f"{kind} {name}{ii} = element {list(ri)} of the underlying buffer {v.buf.name}, outside its extent {v.rshape} at {s.srcinfo}")
         f = v.flat(ii)
         if not (0 <= f < len(v.buf.data)):
             raise Unsafe("buffer-oob", f"{kind} {name}{ii} -> flat {f} outside backing store of {v.buf.name}")
@@ -412,7 +432,11 @@ class Interp:
                         for i, d in zip(ii, base.shape):
                             if not (0 <= i < d):
                                 raise Unsafe("window-extent" if base.is_win else "buffer-oob", f"call arg {a.name}{ii} outside {base.shape}")
-                        v = View(base.buf, base.flat(ii), (), (), base.is_win)
+                        ri = base.root_index(ii)
+                        for r, d in zip(ri, base.rshape):
+                            if not (0 <= r < d):
+                                raise Unsafe("buffer-oob", f"call arg {a.name}{ii} outside the underlying buffer extent {base.rshape}")
+                        v = View(base.buf, base.flat(ii), (), (), base.is_win, base.rshape, tuple(("pt", r) for r in ri))
                     else:
                         v = base
                 elif isinstance(a, LoopIR.ReadConfig):
@@ -423,9 +447,9 @@ class Interp:
                 else:
                     raise Unsafe("call-arg-kind", f"numeric parameter {fa.name} given {type(a).__name__}")
                 if isinstance(t, T.Tensor) and t.is_window and not v.is_win:
-                    v = View(v.buf, v.off, v.strides, v.shape, True)
+                    v = v.retag(True)
                 elif isinstance(t, T.Tensor) and not t.is_window and v.is_win:
-                    v = View(v.buf, v.off, v.strides, v.shape, False)
+                    v = v.retag(False)
                 cenv[fa.name] = v
                 numeric_views.append((fa.name, v))
             else:
@@ -457,20 +481,32 @@ class Interp:
             raise Unsafe("rank-mismatch", f"window {e}")
         off = base.off
         strides, shape = [], []
-        for w, st, d in zip(e.idx, base.strides, base.shape):
+        sub = {}  # base dim k -> ("pt", p) | ("dim", newk, lo)
+        for k, (w, st, d) in enumerate(zip(e.idx, base.strides, base.shape)):
             if isinstance(w, LoopIR.Point):
                 p = self._ctrl(w.pt, env)
                 if self.check_windows and not (0 <= p < d):
                     raise Unsafe("window-extent" if base.is_win else "buffer-oob", f"window point {e.name}[..{p}..] outside {base.shape}")
                 off += p * st
+                sub[k] = ("pt", p)
             else:
                 lo, hi = self._ctrl(w.lo, env), self._ctrl(w.hi, env)
+                if hi < lo:
+                    raise Unsafe("window-negative-extent", f"window interval {e.name}[..{lo}:{hi}..]")
                 if self.check_windows and not (0 <= lo <= hi <= d):
                     raise Unsafe("window-extent" if base.is_win else "buffer-oob", f"window interval {e.name}[..{lo}:{hi}..] outside {base.shape}")
                 off += lo * st
+                sub[k] = ("dim", len(shape), lo)
                 strides.append(st)
                 shape.append(hi - lo)
-        return View(base.buf, off, strides, shape, True)
+        rmap = []
+        for m in base.rmap:
+            if m[0] == "pt":
+                rmap.append(m)
+            else:
+                s2 = sub[m[1]]
+                rmap.append(("pt", s2[1] + m[2]) if s2[0] == "pt" else ("dim", s2[1], s2[2] + m[2]))
+        return View(base.buf, off, strides, shape, True, base.rshape, rmap)
 
     # ------------------------------------------------------------------ #
     def _ctrl(self, e, env):
